@@ -31,6 +31,8 @@ Proof. exact const_laws_binary64. Qed.
 (** un-equilibration *)
 Theorem C19_save_undoes_equilibration : stmt_save_undoes_equilibration.
 Proof. exact (fun T O finf fmax d e c P q A b cones s F => @save_undoes_equilibration_ok T O finf fmax F d e c P q A b cones s). Qed.
+Theorem C19_save_data_ignores_settings : stmt_save_data_ignores_settings.
+Proof. exact save_data_ignores_settings_ok. Qed.
 Theorem C19_save_exact_when_disabled : stmt_save_exact_when_disabled.
 Proof. exact (@save_exact_when_disabled_ok). Qed.
 Theorem C19_mul_one_binary64 : forall x : float, (x * 1)%float = x /\ (x * (1 / 1))%float = x.
